@@ -368,6 +368,14 @@ fn body_graph(ch: &Ch) -> Run {
   let prefer = ch.choose("prefer_cached", 4);
   let cached_sets: [&[&str]; 4] = [&[], &["1.0.0"], &["1.1.0"], &["1.0.0", "1.2.0"]];
   let cached: HashSet<Version> = cached_sets[prefer].iter().map(|v| Version::parse_standard(v).unwrap()).collect();
+  // stale registry metadata in the loader's cache (the versions published later
+  // are missing from it; a cache-bypassing load sees all of them). 1: the
+  // build starts from an empty graph - a requirement the stale metadata cannot
+  // satisfy restarts the whole build with cache busting. 2: the graph already
+  // has a root - no restart; the one package's metadata is refreshed and the
+  // requirement is retried at once, before any later requirement is looked at
+  let stale_mode = if prefer > 0 { 0 } else { ch.choose("stale_cached_metadata", 3) };
+  const STALE_VERSIONS: [&str; 2] = ["1.0.0", "1.1.0"];
   // fixture
   let sched = Sched::new(SchedMode::Immediate);
   let loader = ScriptedLoader::new(sched);
@@ -416,6 +424,21 @@ fn body_graph(ch: &Ch) -> Run {
     raw_meta: None,
   };
   pkg.install(&loader);
+  if stale_mode > 0 {
+    let stale = RegPackage { name: "@s/a".into(), versions: pkg.versions.iter().filter(|v| STALE_VERSIONS.contains(&v.version.as_str())).cloned().collect(), raw_meta: None };
+    let stale_meta: std::sync::Arc<[u8]> = std::sync::Arc::from(stale.meta_json().to_string().into_bytes());
+    *loader.injector.borrow_mut() = Some(Box::new(move |call: &LoadCall, _| {
+      if call.kind == "load" && call.specifier.as_str() == "https://jsr.io/@s/a/meta.json" && call.cache_setting == deno_graph::source::CacheSetting::Use {
+        return Answer::Load(Ok(Some(deno_graph::source::LoadResponse::Module {
+          content: stale_meta.clone(),
+          mtime: None,
+          specifier: call.specifier.clone(),
+          maybe_headers: None,
+        })));
+      }
+      Answer::Honest
+    }));
+  }
   if prefer > 0 {
     *loader.cached_only.borrow_mut() = Some(cached.iter().map(|v| url(&format!("https://jsr.io/@s/a/{v}_meta.json"))).collect());
   }
@@ -434,6 +457,13 @@ fn body_graph(ch: &Ch) -> Run {
       package_specifiers: [(&dep, v)].into_iter(),
     });
     selected.push(Version::parse_standard(v).unwrap());
+  }
+  if stale_mode == 2 {
+    loader.add_text("https://x/first.ts", "export {};\n");
+    if build_graph(&mut graph, vec![url("https://x/first.ts")], &loader, BuildCfg::default(), ch).is_err() {
+      run.violate("build-did-not-finish", "deadlock in the preliminary build", json!({}));
+      return run;
+    }
   }
   let name = deno_semver::package::PackageName::from_str("@s/a");
   let resolver = match date_cfg {
@@ -465,6 +495,7 @@ fn body_graph(ch: &Ch) -> Run {
     "program": root, "lockfile_selection": seeded, "date_config": (["none", "cutoff", "cutoff-but-package-excluded"][date_cfg]),
     "prefer_cached_jsr_versions": prefer > 0, "cached_version_manifests": cached_sets[prefer],
     "neighbour_package": (["none", "imported first", "imported last"][neighbour]),
+    "stale_cached_metadata": (["no", "yes (versions 1.2.0 and 2.0.0 missing), build from an empty graph", "yes (versions 1.2.0 and 2.0.0 missing), graph already has a root"][stale_mode]),
   });
   if r.is_err() {
     run.violate("build-did-not-finish", "deadlock", desc.clone());
@@ -478,6 +509,40 @@ fn body_graph(ch: &Ch) -> Run {
   if let Some((req, v)) = seeded {
     exp_map.insert(PackageReq::from_str(req).unwrap(), format!("@s/a@{v}"));
   }
+  // which metadata the selection sees
+  let stale_registry: Vec<(Version, VState)> = registry
+    .iter()
+    .map(|(v, s)| (v.clone(), VState { present: s.present && STALE_VERSIONS.contains(&v.to_string().as_str()), ..*s }))
+    .collect();
+  let any_not_found_under = |view: &Vec<(Version, VState)>| -> bool {
+    let mut sel = selected.clone();
+    for t in &imports {
+      let req_text = t.strip_prefix("jsr:@s/a").unwrap();
+      let req_text = req_text.strip_prefix('@').unwrap_or("*");
+      if req_text == "latest" {
+        continue;
+      }
+      let req = PackageReq { name: name.clone(), version_req: deno_semver::VersionReq::parse_from_specifier(req_text).unwrap() };
+      match reference(view, &req, &sel, &HashSet::new(), date_applies) {
+        Expected::Version(v, _, _) => {
+          let ver = Version::parse_standard(&v).unwrap();
+          if !sel.contains(&ver) {
+            sel.push(ver);
+          }
+        }
+        Expected::NotFound { .. } => return true,
+      }
+    }
+    false
+  };
+  if stale_mode == 1 {
+    run.count("builds_that_restart_with_cache_busting_because_of_stale_metadata", any_not_found_under(&stale_registry) as u64);
+  }
+  let mut sees_fresh = match stale_mode {
+    0 => true,
+    1 => any_not_found_under(&stale_registry), // the restart re-reads everything
+    _ => false,
+  };
   for t in &imports {
     let req_text = t.strip_prefix("jsr:@s/a").unwrap();
     let req_text = req_text.strip_prefix('@').unwrap_or("*");
@@ -492,7 +557,13 @@ fn body_graph(ch: &Ch) -> Run {
     let req = PackageReq { name: name.clone(), version_req: deno_semver::VersionReq::parse_from_specifier(req_text).unwrap() };
     let unification_decides = selected.iter().any(|v| req.version_req.matches(v));
     let cached_here = if prefer > 0 && !unification_decides { cached.clone() } else { HashSet::new() };
-    let want = reference(&registry, &req, &selected, &cached_here, date_applies);
+    let mut want = reference(if sees_fresh { &registry } else { &stale_registry }, &req, &selected, &cached_here, date_applies);
+    if stale_mode == 2 && !sees_fresh && matches!(want, Expected::NotFound { .. }) {
+      // refreshed for this package, and this requirement retried first
+      sees_fresh = true;
+      run.count("builds_that_refresh_one_package_without_a_restart", 1);
+      want = reference(&registry, &req, &selected, &cached_here, date_applies);
+    }
     outcome.push(format!("{want:?}"));
     let key = format!("{}@{}", req.name, req.version_req);
     match want {
